@@ -18,10 +18,10 @@ RULE = ("generated interface family (as C01, every fifth interface rpc/encoded) 
 ASSUMPTIONS = ["alphabet: no empty strings and no content-free objects (suds decodes both to None / '', pinned by "
                "its tests), no mixed content", "the reply writer is iface.write_envelope; expat re-reads every "
                "envelope before it is injected, so the writer's output is well-formed by an independent judge"]
-PARTIAL = [{"theorem": "decode_marshal_roundtrip (whole trees)", "missing": "proved for leaves and nil "
-            "(leaf_roundtrip, nil_roundtrip) and, for the collection of children, for every child sequence "
-            "(repeating_member_is_list, single_member_is_value); the whole-tree statement is checked by the "
-            "correspondence on generated trees, not proved"}]
+PARTIAL = [{"theorem": "decode_marshal_roundtrip (every tree)", "missing": "proved for every flat struct "
+            "(flat_struct_roundtrip: any members with builtin types, absent / single / repeating of any length, any "
+            "form and namespace), for leaves and nil; nested objects, attributes and derived types are covered by "
+            "the per-rule theorems and by the whole-tree correspondence on generated trees, not by one theorem"}]
 TRUSTED = ["pyexpat", "iface.py writer and reference decoder"]
 CLASSIFIERS = {}
 
